@@ -47,6 +47,15 @@ def generate(tier, seed):
     rnd.shuffle(triples)
     progs += [list(p) for p in pairs[:120 if tier == 'quick' else len(pairs)]]
     progs += [list(p) for p in triples[:150 if tier == 'quick' else 6000]]
+    # rule order must not matter: a third of the multi-rule programs also in a shuffled order, and constraints / choice
+    # rules placed before the rules that close a positive cycle
+    for p in [p for p in progs if len(p) > 1][::3]:
+        q = list(p)
+        rnd.shuffle(q)
+        if q != p:
+            progs.append(q)
+    progs += [[':- not s.', 'p(X) :- p(X).'], ['{s}.', ':- not s.', 't :- s.', 's :- t.'], [':- p(X), q(X).', 'q(X) :- r(X, X).', 'r(X, Y) :- p(X), q(Y), X < Y.', 'p(X) :- q(X).'],
+              ['s :- not t.', ':- not s.', 'p(X) :- u(X, X), s.', 'u(V1, V) :- r(V, V1).', 'r(X, Y) :- p(X), q(Y), X < Y.']]
     nlink = 0
     for rules in progs:
         it = {'family': 'programs-%d-rules' % len(rules), 'program': '\n'.join(rules), 'sentinels': [S1]}
